@@ -8,14 +8,43 @@ from gtwrap.template_instantiator.declaration import InstantiatedDeclaration
 from gtwrap.template_instantiator.function import InstantiatedGlobalFunction
 
 
-def instantiate_namespace(namespace):
+def find_typedef_targets(namespace, targets=None):
+    """
+    Find the class, function or forward declaration which each typedef in
+    `namespace` (at any depth) refers to.
+
+    This has to happen before anything is instantiated: instantiating a
+    namespace replaces its content, which drops the templates that a typedef
+    placed after that namespace refers to.
+
+    @param[in] namespace The namespace to search for typedefs.
+    @return Dictionary from the id of each typedef to the element it names.
+    """
+    if targets is None:
+        targets = {}
+    for element in namespace.content:
+        if isinstance(element, parser.TypedefTemplateInstantiation):
+            top_level = namespace.top_level()
+            targets[id(element)] = top_level.find_class_or_function(
+                element.typename)
+        elif isinstance(element, parser.Namespace):
+            find_typedef_targets(element, targets)
+    return targets
+
+
+def instantiate_namespace(namespace, typedef_targets=None):
     """
     Instantiate the classes and other elements in the `namespace` content and
     assign it back to the namespace content attribute.
 
     @param[in/out] namespace The namespace whose content will be replaced with
         the instantiated content.
+    @param[in] typedef_targets The elements which the typedefs refer to, as
+        given by `find_typedef_targets` (computed if not provided).
     """
+    if typedef_targets is None:
+        typedef_targets = find_typedef_targets(namespace)
+
     instantiated_content = []
     typedef_content = []
 
@@ -54,9 +83,7 @@ def instantiate_namespace(namespace):
             # This is for the case where `typedef` statements are used
             # to specify the template parameters.
             typedef_inst = element
-            top_level = namespace.top_level()
-            original_element = top_level.find_class_or_function(
-                typedef_inst.typename)
+            original_element = typedef_targets[id(typedef_inst)]
 
             # Check if element is a typedef'd class, function or
             # forward declaration from another project.
@@ -77,7 +104,7 @@ def instantiate_namespace(namespace):
                         typedef_inst.new_name))
 
         elif isinstance(element, parser.Namespace):
-            element = instantiate_namespace(element)
+            element = instantiate_namespace(element, typedef_targets)
             instantiated_content.append(element)
         else:
             instantiated_content.append(element)
